@@ -111,7 +111,11 @@ func (it *Interp) knownExclusion(k knownFinding) *Term {
 				return mkInt(n), true
 			}
 			t := lookup(tok)
-			return t, t != nil
+			if t == nil {
+				// a name that does not exist on this path reads as -1
+				t = mkInt(-1)
+			}
+			return t, true
 		}
 		op := toks[pos]
 		pos++
